@@ -2,6 +2,7 @@
     ExtrOcamlBasic only: bool, option, unit, list, prod, sumbool, sumor map to OCaml's own
     types and andb/orb are inlined; positive/N/Z/nat stay the inductive types. *)
 From Coq Require Extraction ExtrOcamlBasic.
+From Chess Require Import Proofs.GenInterface.
 From Chess Require Import Spec.Rules Spec.Text Spec.Draw Model.Board Model.MoveGen Model.Fen Model.San Model.Game Model.CacheTable.
 Extraction Language OCaml.
 Extraction "/verif/build/ocaml/model.ml"
@@ -22,4 +23,5 @@ Extraction "/verif/build/ocaml/model.ml"
              move_display move_from_str from_san
              new_with_board current_position side_to_move result g_make_move g_offer_draw g_resign
              g_accept_draw g_declare_draw can_declare_draw
-             ct_new ct_get ct_add ct_replace_if.
+             ct_new ct_get ct_add ct_replace_if
+             test_interfaces.
